@@ -137,6 +137,7 @@ def case_modes(ctx, N, nmodes):
     ctx.bounds.update(N=N, modes=nmodes, coefficients="symbolic")
     ctx.assume("concrete trigonometric / irrational values evaluated in floating point, as the code itself does (grid is concrete)")
     cs = symarr("c", (nmodes,))
+    ctx.fallback = lambda m: replay_modes(N, nmodes, m(cs))
     with npx.symbolic(zm, pupil):
         Zs = numpy.asarray(zm.zernikeArray(nmodes, N), dtype=object)
         lst = [nmodes, 1, 3] if nmodes >= 3 else [1]
@@ -145,6 +146,7 @@ def case_modes(ctx, N, nmodes):
         Zr = numpy.asarray(zm.zernikeArray(nmodes, N, norm="rms"), dtype=object)
     ctx.paths += 1
     rp = lambda m: replay_modes(N, nmodes, m(cs))
+    ctx.fallback = rp
     want = numpy.zeros((N, N), dtype=object)
     for k in range(nmodes):
         want = want + Zs[k] * cs[k]
